@@ -45,8 +45,10 @@ class Gen:
     """layout: 0 canonical, 1 mild, 2 wild.  crlf: line endings.  profile: weights of item kinds."""
 
     def __init__(self, g, layout=1, crlf=False, p_doc=0.5, max_depth=3, max_items=6, malformed=0.0,
-                 weights=None, doc_lines=None, idents=None):
-        self.g = g; self.layout = layout; self.crlf = crlf; self.p_doc = p_doc; self.max_depth = max_depth
+                 weights=None, doc_lines=None, idents=None, lg=None):
+        # g decides the module's content (its token sequence); lg decides only the layout, so the same content seed
+        # with different layout seeds yields layout variants of one module
+        self.g = g; self.lg = lg if lg is not None else g; self.layout = layout; self.crlf = crlf; self.p_doc = p_doc; self.max_depth = max_depth
         self.max_items = max_items; self.malformed = malformed
         self.weights = weights or {}
         self.doc_lines = doc_lines or DOC_LINES
@@ -59,7 +61,7 @@ class Gen:
 
     def filler(self, allow_newline=True):
         """a possibly empty run of filler atoms (wild layouts only)"""
-        g = self.g; out = []
+        g = self.lg; out = []
         for _ in range(g.randint(0, 3)):
             k = g.random()
             if k < 0.3: out.append(['s', g.randint(1, 4)])
@@ -74,7 +76,7 @@ class Gen:
 
     def sep_cmd(self, indent, first=False):
         """before a command or doccomment: ends on a fresh line, then `indent` blanks"""
-        g = self.g
+        g = self.lg
         ind = ([['s', indent]] if indent else []) if self.layout < 2 or g.random() < 0.6 else [['t', 1 + indent // 4]]
         if first and (self.layout == 0 or g.random() < 0.5): return ind if self.layout else []
         if self.layout == 0: return [self.nl()] + ind
@@ -89,7 +91,7 @@ class Gen:
         return out + ind
 
     def sep_arg(self, first):
-        g = self.g
+        g = self.lg
         if self.layout == 0: return [] if first else [['s', 1]]
         if self.layout == 1:
             if first: return [] if g.random() < 0.8 else [['s', 1]]
@@ -100,58 +102,67 @@ class Gen:
         return out
 
     def sep_close(self):
-        g = self.g
+        g = self.lg
         if self.layout == 0: return []
         if self.layout == 1: return [] if g.random() < 0.8 else [self.nl()]
         return self.filler()
 
     # ---- arguments --------------------------------------------------------------------------------------
     def tok(self, text=None, forms='bqk'):
-        """an argument token; `text`: force a bare word"""
+        """an argument token (content); `text`: force a bare word"""
         g = self.g
         if text is not None: return ['b', text]
         f = g.choice(forms + 'bbq')
         if f == 'b': return ['b', g.choice(BARE)]
-        if f == 'q':
-            t = g.choice(QUOTED)
-            return ['q', t.replace('\n', '\r\n') if self.crlf and '\\\n' not in t else t]
+        if f == 'q': return ['q', g.choice(QUOTED)]
         lvl, t = g.choice(BRACKET)
         return ['k', lvl, t]
 
     def args(self, toks, groups=False):
-        """toks: list of token lists; returns [[sep, tok], ...]"""
+        """toks: list of tokens; returns [[sep, tok], ...].  Whether and where a parenthesised group is inserted is
+        content; the separators are layout."""
+        g = self.g
+        items = list(toks)
+        if groups and g.random() < 0.35:
+            inner = [self.tok() for _ in range(g.randint(0, 3))]
+            if g.random() < 0.3: inner.insert(g.randint(0, len(inner)), ['G', [self.tok() for _ in range(g.randint(0, 2))]])
+            items.insert(g.randint(0, len(items)), ['G', inner])
+        return self._lay_args(items)
+
+    def _lay_args(self, items):
         out = []
-        for i, t in enumerate(toks):
-            out.append([self.sep_arg(i == 0), t])
-        if groups and self.g.random() < 0.35:
-            inner = self.args([self.tok() for _ in range(self.g.randint(0, 3))], groups=self.g.random() < 0.3)
-            pos = self.g.randint(0, len(out))
-            out.insert(pos, [self.sep_arg(pos == 0), ['g', inner, self.sep_close()]])
-            if pos == 0 and len(out) > 1 and not out[1][0]:
-                out[1][0] = [['s', 1]]
+        for i, t in enumerate(items):
+            prev_is_tok = i > 0
+            sep = self.sep_arg(i == 0)
+            if t[0] == 'G':
+                out.append([sep, ['g', self._lay_args(t[1]), self.sep_close()]])
+            else:
+                out.append([sep, t])
         return out
 
     def call(self, name, toks, indent, first=False, groups=False, after_doc=False):
-        g = self.g
+        args = self.args(toks, groups)          # content first (consumes self.g), then layout
+        lg = self.lg
         pre = self.sep_cmd(indent, first=first and not after_doc)
         if after_doc and not any(a[0] in ('n', 'rn', 'lc') for a in pre):
             pre = [self.nl()] + pre
-        return dict(pre=pre, name=case_mix(g, name, self.layout), sp=(0 if self.layout < 2 or g.random() < 0.7 else g.randint(1, 2)),
-                    args=self.args(toks, groups), close=self.sep_close())
+        return dict(pre=pre, name=case_mix(lg, name, self.layout), sp=(0 if self.layout < 2 or lg.random() < 0.7 else lg.randint(1, 2)),
+                    args=args, close=self.sep_close())
 
     # ---- doccomments ------------------------------------------------------------------------------------
     def doc(self, indent, first=False, lines=None, open_suffix='', force=False):
-        g = self.g
+        g = self.g; lg = self.lg
         if not force and g.random() >= self.p_doc: return None
         if lines is None:
             lines = [g.choice(self.doc_lines) for _ in range(g.randint(0, 5))]
         lines = [l for l in lines if ']]' not in l]
         leader = True
-        if self.layout == 0: ind = ' ' * indent
-        else: ind = g.choice(['', ' ' * indent, '  ', '\t', '\t ', '      ', '        ' + ' ' * indent])
         if not open_suffix and g.random() < 0.08:
-            leader = False; ind = ''
+            leader = False
             lines = [g.choice(LEADERLESS_LINES) for _ in range(g.randint(1, 3))]
+        if not leader: ind = ''
+        elif self.layout == 0: ind = ' ' * indent
+        else: ind = lg.choice(['', ' ' * indent, '  ', '\t', '\t ', '      ', '        ' + ' ' * indent])
         pre = self.sep_cmd(0, first=first)
         # the indentation is part of `ind`, so the separator must leave us at the start of a line
         if pre and pre[-1][0] in ('s', 't'): pre = pre[:-1]
@@ -210,7 +221,7 @@ class Gen:
             if mal and g.random() < 0.3: toks = []
             it = dict(k='block', doc=d, open=self.call(kw, toks, ind, cfirst, after_doc=d is not None),
                       body=self.items(depth + 1, False, False, False), close=self.call('end' + kw, [], ind))
-            if g.random() < 0.15 and self.layout: it['close'] = self.call(g.choice(['endfunction', 'endmacro']), [self.tok(forms='b')], ind)
+            if g.random() < 0.15: it['close'] = self.call(g.choice(['endfunction', 'endmacro']), [self.tok(forms='b')], ind)
             return it
         if k == 'set':
             toks = [self.tok(self.ident())] + [self.tok() for _ in range(g.choice([0, 1, 1, 1, 2, 3, 5]))]
@@ -281,21 +292,17 @@ class Gen:
         raise ValueError(k)
 
     def module(self, moddoc=None):
-        g = self.g
+        g = self.g; lg = self.lg
         md = None
         if moddoc is None: moddoc = g.random() < 0.15
         if moddoc:
             name = g.choice(['', ' the.name', ' N', '  spaced  ', ' é'])
-            md = self.doc(0, first=True, force=True, open_suffix=(g.choice([' ', '', '\t']) if self.layout else ' ') + '@module' + name)
-            md['leader'] = True
-            if not md['pre']: pass
+            md = self.doc(0, first=True, force=True, open_suffix=(lg.choice([' ', '', '\t']) if self.layout else ' ') + '@module' + name)
         items = self.items(0, first=md is None)
         tail = [self.nl()] if self.layout < 2 else self.filler() + [self.nl()]
-        if self.layout == 2 and g.random() < 0.15: tail = tail + [['lc', g.choice([' eof', ']]', '']), '']]
-        if self.layout == 2 and g.random() < 0.1: tail = []
-        m = dict(bom=(self.layout == 2 and g.random() < 0.1), moddoc=md, items=items, tail=tail)
-        if md is not None and md['pre'] and m['bom'] is False: pass
-        return m
+        if self.layout == 2 and lg.random() < 0.15: tail = tail + [['lc', lg.choice([' eof', ']]', '']), '']]
+        if self.layout == 2 and lg.random() < 0.1: tail = []
+        return dict(bom=(self.layout == 2 and lg.random() < 0.1), moddoc=md, items=items, tail=tail)
 
 
 # ---- views of a tree -------------------------------------------------------------------------------------
